@@ -25,7 +25,8 @@ BUDGET_S = {'quick': 420, 'thorough': 5000}
 DEPTH = {'quick': 4, 'thorough': 5}
 
 CM_LEAVES = [T.A('a', (2,)), T.A('A', (2, 2)), ('const', ((1., 2.), 'f')), ('const', (((1., 2.), (3., 4.)), 'f')), ('ones', ((2, 2), 'f')),
-             ('tofloat', (), ('range', (2,))), T.A('s', ())]
+             ('tofloat', (), ('range', (2,))), T.A('s', ()), T.A('b', (3,)), ('const', ((1., 2., 3.), 'f')),
+             ('add', (), ('range', (2,)), T.A('i', (), 'i'))]   # run-time offset: Take(const, Range(2)+i) becomes a slice VIEW of a cached constant
 irspace.LEAFSETS['cm'] = CM_LEAVES
 PROFILES = {
     'quick': [{'name': 'cm-d1', 'leaves': 'cm', 'consts': False, 'ops': 'all', 'depth': 1},
